@@ -331,11 +331,22 @@ def real_segmented(g, res):
     return from_shapely(Geometry(to_shapely(g), "EPSG:3857").segmented(res).geom)
 
 
-CRS_SPECS = ["EPSG:4326", "epsg:4326", "EPSG:3857", "EPSG:32633", "EPSG:3035", "EPSG:6933"]
+# custom CRSs without an EPSG code (PROJ strings and the WKT of one of them): `crs.epsg` is None for all three
+SINU = "+proj=sinu +lon_0=0 +x_0=0 +y_0=0 +R=6371007.181 +units=m +no_defs"
+LAEA_C = "+proj=laea +lat_0=50 +lon_0=12 +x_0=0 +y_0=0 +ellps=GRS80 +units=m +no_defs"
+SINU_WKT = ('PROJCRS["unknown",BASEGEOGCRS["unknown",DATUM["unknown",ELLIPSOID["unknown",6371007.181,0,LENGTHUNIT["metre",1,'
+            'ID["EPSG",9001]]]],PRIMEM["Greenwich",0,ANGLEUNIT["degree",0.0174532925199433],ID["EPSG",8901]]],'
+            'CONVERSION["unknown",METHOD["Sinusoidal"],PARAMETER["Longitude of natural origin",0,'
+            'ANGLEUNIT["degree",0.0174532925199433],ID["EPSG",8802]],PARAMETER["False easting",0,LENGTHUNIT["metre",1],'
+            'ID["EPSG",8806]],PARAMETER["False northing",0,LENGTHUNIT["metre",1],ID["EPSG",8807]]],CS[Cartesian,2],'
+            'AXIS["(E)",east,ORDER[1],LENGTHUNIT["metre",1,ID["EPSG",9001]]],AXIS["(N)",north,ORDER[2],'
+            'LENGTHUNIT["metre",1,ID["EPSG",9001]]]]')
+CRS_SPECS = ["EPSG:4326", "epsg:4326", "EPSG:3857", "EPSG:32633", "EPSG:3035", "EPSG:6933", SINU, LAEA_C, SINU_WKT]
 # vertices well inside the area of use of every CRS of the alphabet that is paired with the source
 AREA = {"EPSG:4326": (12.0, 50.0, 2.0 ** -3), "epsg:4326": (12.0, 50.0, 2.0 ** -3), "EPSG:3857": (1441792.0, 6553600.0, 1024.0),
         "EPSG:32633": (409600.0, 5570560.0, 512.0), "EPSG:6933": (1179648.0, 5242880.0, 1024.0),
-        "EPSG:3035": (4456448.0, 3014656.0, 1024.0)}
+        "EPSG:3035": (4456448.0, 3014656.0, 1024.0),
+        SINU: (851968.0, 5570560.0, 1024.0), SINU_WKT: (851968.0, 5570560.0, 1024.0), LAEA_C: (65536.0, 32768.0, 1024.0)}
 
 
 def crs_classes():
@@ -549,8 +560,9 @@ def gen_cases(out, tier):
         wrap = rng.random() < 0.2
         cf = rng.random() < 0.2
         geo = bool(dst is not None and objs[dst].geographic)
-        if wrap and geo:
-            wrap = False
+        # wrapdateline with a geographic target is kept: the whole alphabet lives in central Europe, where
+        # chop_along_antimeridian and clip_lon180 must be the identity (the oracle instantiation of the cases);
+        # geometries near / across the antimeridian are judged by the `wrapdateline` search predicate
         G0 = Geometry(to_shapely(g), src)
         try:
             got = with_timeout(5, lambda: G0.to_crs(dst, resolution=res, wrapdateline=wrap, check_and_fix=cf))
@@ -745,9 +757,13 @@ def p_tocrs(src, g, dst, res, wrap=False, cf=False):
         return (src is None or dst is None), f"ValueError: {e}"
     if src is None or dst is None:
         return False, "no ValueError for a missing CRS"
-    same = CRS(src) == CRS(dst)
+    import pyproj
+
+    # "already in the target CRS" judged by pyproj itself, not by the wrapper's comparison
+    same = pyproj.CRS.from_user_input(src) == pyproj.CRS.from_user_input(dst)
     if same or got is G0:
-        return (got is G0) == same, f"same CRS: {same}, returned self: {got is G0}"
+        return (got is G0) == same, (f"pyproj says the CRSs are {'equal' if same else 'different'}, to_crs "
+                                     f"{'returned self' if got is G0 else 'returned a new geometry'} (crs={got.crs})")
     if got.crs != CRS(dst):
         return False, f"result crs {got.crs}"
     base = G0
@@ -810,8 +826,89 @@ def p_transformer(src, dst, pts):
     return same, f"scalar call on {pts[0]}: {(sx, sy)} vs pyproj {(x, y)}"
 
 
+SNAP_DEG = 1e-4   # `eps` of Geometry.to_crs: longitudes within 1e-4 deg of +-180 may be snapped onto +-180
+
+
+def p_wrap(src, g, dst):
+    """to_crs(dst, wrapdateline=True) with a geographic target, geometry near or across the antimeridian.
+    Every original vertex must come out exactly where pyproj puts it; the only allowed deviation is the
+    documented snapping: a longitude with |lon| >= 180 - 1e-4 may be returned as exactly +-180.
+    Geometry that does not cross keeps its type, structure and vertex order; a crossing one may be split
+    (extra cut vertices are not judged) but every original vertex must still be present."""
+    from odc.geo.geom import Geometry
+
+    G0 = Geometry(to_shapely(g), src)
+    got = with_timeout(10, lambda: G0.to_crs(dst, wrapdateline=True))
+    tr = pyproj_tr(src, dst)
+    imgs = [tr.transform(v[0], v[1]) for v in verts(g)]
+    thresh = 180 - SNAP_DEG
+
+    def agrees(img, w):
+        if img[1] != w[1]:
+            return False
+        return img[0] == w[0] or (abs(img[0]) >= thresh and abs(w[0]) == 180.0)
+
+    r = from_shapely(got.geom)
+    crossing = any(i[0] > 90 for i in imgs) and any(i[0] < -90 for i in imgs)
+    if not crossing:
+        if skeleton(r) != skeleton(g):
+            return False, f"geometry does not cross the antimeridian but type/structure changed: {skeleton(g)} -> {skeleton(r)}"
+        for v, img, w in zip(verts(g), imgs, verts(r)):
+            if not agrees(img, w):
+                return False, (f"vertex {v}: pyproj maps it to {img}, to_crs(wrapdateline=True) gives {w} "
+                               f"({180 - abs(img[0]):.6f} deg from the antimeridian; snapping allowed only within {SNAP_DEG})")
+        return True, "ok"
+    outv = verts(r)
+    for v, img in zip(verts(g), imgs):
+        if not any(agrees(img, w) for w in outv):
+            near = min(outv, key=lambda w: abs(w[0] - img[0]) + abs(w[1] - img[1]))
+            return False, (f"crossing geometry: original vertex {v} -> pyproj {img} is missing from the output "
+                           f"(nearest output vertex {near}; snapping allowed only within {SNAP_DEG} deg of +-180)")
+    return True, "ok"
+
+
+AM_SOURCES = [("EPSG:32660", "west"), ("EPSG:3832", "west"), ("EPSG:3832", "east"), ("EPSG:3857", "west"),
+              ("EPSG:3857", "east"), ("EPSG:32601", "east"), ("EPSG:32660", "cross"), ("EPSG:3832", "cross")]
+
+
+def gen_antimeridian(rng, src, side):
+    """geometry given in `src` coordinates whose vertices lie at chosen distances from lon = +-180"""
+    to_src = pyproj_tr("EPSG:4326", src)
+    lat0 = rng.choice([-1, 1]) * rng.uniform(5, 25)
+    if src in ("EPSG:32660", "EPSG:32601"):
+        lat0 = abs(lat0)
+    dists = [3e-5, 5e-4, 2e-3, 0.01, 0.05, 0.09, 0.3, 1.2]
+
+    def pt(sd, d, dlat):
+        lon = 180 - d if sd == "west" else -180 + d
+        x, y = to_src.transform(lon, lat0 + dlat)
+        return [x, y]
+
+    if side != "cross":
+        n = rng.randint(3, 5)
+        ps = [pt(side, rng.choice(dists), 0.04 * i + rng.uniform(0, 0.02)) for i in range(n)]
+        ps[rng.randrange(n)] = pt(side, rng.choice([5e-4, 2e-3, 0.01, 0.05, 0.09]), 0.25)
+        kind = rng.choice(["Point", "MultiPoint", "Line", "Polygon", "MLine", "MCollection"])
+        if kind == "Point":
+            return ["Point", ps[-1]] if rng.random() < 0.5 else ["Point", ps[0]]
+        if kind == "MultiPoint":
+            return ["MultiPoint", ps]
+        if kind == "Line":
+            return ["Line", ps]
+        if kind == "Polygon":
+            return ["Polygon", ps[:3] + [ps[0]], []]
+        if kind == "MLine":
+            return ["Multi", "MLine", [["Line", ps[:2]], ["Line", ps[1:]]]]
+        return ["Multi", "MCollection", [["Point", ps[0]], ["Line", ps[1:]]]]
+    da, db, dc = (rng.choice([5e-4, 2e-3, 0.01, 0.05, 0.09, 0.3]) for _ in range(3))
+    if rng.random() < 0.3:
+        return ["Line", [pt("west", 0.6, 0.0), pt("west", da, 0.05), pt("east", db, 0.1), pt("east", 0.7, 0.12)]]
+    return ["Polygon", [pt("west", 0.8, 0.0), pt("west", da, -0.05), pt("east", db, 0.0), pt("east", 0.7, 0.3),
+                        pt("west", dc, 0.35), pt("west", 0.8, 0.3), pt("west", 0.8, 0.0)], []]
+
+
 PREDICATES = {"transformer": p_transformer, "densify": p_densify, "segmented": p_segmented, "retain": p_retain, "nonpositive": p_nonpositive,
-              "to_crs": p_tocrs, "roundtrip": p_roundtrip}
+              "to_crs": p_tocrs, "roundtrip": p_roundtrip, "wrapdateline": p_wrap}
 
 
 def search(out, tier):
@@ -883,6 +980,10 @@ def search(out, tier):
         run("to_crs", src, g, dst, res)
         if src and dst and tier != "quick" or (src and dst and i % 5 == 0):
             run("roundtrip", src, g, dst)
+    # wrapdateline=True to a geographic CRS: near (both sides) and across the antimeridian
+    for i in range(64 if tier == "quick" else 800):
+        src, side = AM_SOURCES[i % len(AM_SOURCES)]
+        run("wrapdateline", src, gen_antimeridian(rng, src, side), rng.choice(["EPSG:4326", "epsg:4326"]))
     # the transformer itself (numpy path, NaN harmonisation); 4326 -> 4258 is a no-op pipeline that lets a NaN through per axis
     nan = float("nan")
     for src, dst in [("EPSG:4326", "EPSG:4258"), ("EPSG:4326", "EPSG:3857"), ("EPSG:3857", "EPSG:4326"),
@@ -915,7 +1016,9 @@ def run(out, tier, scratch):
                 "non-positive resolutions; (c) Geometry.segmented on every geometry kind incl. nested collections and empty "
                 "parts; (d) shapely area/length and _auto_resolution; (e) Geometry.to_crs over a 6-spec CRS alphabet (+None) x "
                 "all geometry kinds x resolution None/number/auto/inf/nan/0/negative x wrapdateline/check_and_fix where they "
-                "have no effect, with the projection oracle instantiated by pyproj's scalar outputs.  A case is non-trivial "
+                "have no effect, with the projection oracle instantiated by pyproj's scalar outputs; the alphabet includes "
+                "three CRSs without EPSG code (PROJ strings, WKT); search additionally: wrapdateline=True near/across the "
+                "antimeridian judged against pyproj with the 1e-4 deg snapping as only allowed deviation.  A case is non-trivial "
                 "when it inserts points, reaches an error branch or projects; distinct = distinct canonical (operation, inputs). "
                 "search: property clauses evaluated in Fraction arithmetic on the implementation (exactness-domain inputs for "
                 "clauses that involve inserted points, arbitrary floats for retention and for the vertex-wise pyproj identity)")
